@@ -343,12 +343,19 @@ pub fn new_brain(model: Model, policy: Box<dyn Policy>) -> SharedBrain {
 pub struct Script {
     vals: Vec<SharedValue>,
     bounds: Vec<(f64, f64)>,
+    /// indices of values that get a second basis handle (appended after the n ordinary handles): two handles on one
+    /// value are legal for a user-written state and must behave like one
+    twins: Vec<usize>,
     pub brain: SharedBrain,
 }
 
 impl Script {
     pub fn new(init: &[f64], bounds: &[(f64, f64)], brain: SharedBrain) -> Script {
-        Script { vals: init.iter().map(|v| SharedValue::new(*v)).collect(), bounds: bounds.to_vec(), brain }
+        Script { vals: init.iter().map(|v| SharedValue::new(*v)).collect(), bounds: bounds.to_vec(), twins: vec![], brain }
+    }
+    pub fn with_twins(mut self, twins: &[usize]) -> Script {
+        self.twins = twins.iter().map(|i| i % self.vals.len().max(1)).collect();
+        self
     }
     pub fn params(&self) -> Vec<f64> {
         self.vals.iter().map(|v| v.get_value()).collect()
@@ -357,7 +364,7 @@ impl Script {
 
 impl Clone for Script {
     fn clone(&self) -> Script {
-        Script { vals: self.vals.iter().map(|v| SharedValue::new(v.get_value())).collect(), bounds: self.bounds.clone(), brain: self.brain.clone() }
+        Script { vals: self.vals.iter().map(|v| SharedValue::new(v.get_value())).collect(), bounds: self.bounds.clone(), twins: self.twins.clone(), brain: self.brain.clone() }
     }
 }
 
@@ -415,7 +422,11 @@ impl State for Script {
         ret
     }
     fn generate_basis(&self) -> Vec<StandardBasis> {
-        self.vals.iter().zip(self.bounds.iter()).map(|(v, (lo, hi))| StandardBasis::new(v, *lo, *hi)).collect()
+        let mut b: Vec<StandardBasis> = self.vals.iter().zip(self.bounds.iter()).map(|(v, (lo, hi))| StandardBasis::new(v, *lo, *hi)).collect();
+        for i in self.twins.iter() {
+            b.push(StandardBasis::new(&self.vals[*i], self.bounds[*i].0, self.bounds[*i].1));
+        }
+        b
     }
     fn total_shapes(&self) -> usize {
         1
